@@ -58,12 +58,16 @@ def gen_case(rng, idx=0):
         n = max(n, rng.choice([4, 5, 6])); wj = lj = cj = 0
         perturb = {"kind": "instr", "p_line": .1, "p_instr": .5, "max_ms": 4, "burst": True}
     tail = 0
-    if m > 0 and rng.random() < .5:
+    if m > 0 and rng.random() < .65:
         # slow source + slow process launch: the loader may finish while a retired worker is being replaced
-        tail = rng.choice([50, 150, 400]); perturb = dict(perturb, slow_start=True) if perturb["kind"] != "none" else {"kind": "line", "p_line": .5, "max_ms": 25, "slow_start": True}
-        items = max(items, 2)
+        tail = rng.choice([50, 100, 150, 250]); perturb = dict(perturb, slow_start=True) if perturb["kind"] != "none" else {"kind": "line", "p_line": .5, "max_ms": 30, "slow_start": True}
+        items = max(items, 2); wj = rng.choice([0, 0, 5])
         for uid in range(items): kmap.setdefault(uid, 1)
-    return {"tail_delay_ms": tail, "n": n, "m": m, "n_items": items, "items_class": base, "via": via, "mode": mode, "pattern": pat, "kmap": kmap,
+    fdr = False
+    if m in (1, 2, 3) and rkind == "none" and abandon is None and rng.random() < .3:
+        fdr = True; n = min(n, 3); items = n * (m - 1) + 2 + rng.choice([0, 1, 2]); tail = 0; lj = 0
+        kmap = {u: kmap.get(u, 1) for u in range(items)}
+    return {"finish_during_replacement": fdr, "tail_delay_ms": tail, "n": n, "m": m, "n_items": items, "items_class": base, "via": via, "mode": mode, "pattern": pat, "kmap": kmap,
             "raising_kind": rkind, "raising": raising, "abandon": abandon, "perturb": perturb, "perturb_seed": rng.randrange(1 << 30),
             "worker_jitter_ms": wj, "loader_jitter_ms": lj, "consumer_jitter_ms": cj, "watchdog_s": 45, "exc_type": rng.choice(["ValueError", "KeyError", "InjectedFailure", "AssertionError", "EOFError", "TypeError"] if via == "coba" else ["ValueError", "KeyError", "RuntimeError", "InjectedFailure", "AssertionError", "EOFError", "TypeError"])}
 
@@ -116,7 +120,7 @@ def judge(spec, res, processed):
                   f"_n_procs={w['n_procs']} got={w['n_got']} workers={w['workers']} live_idle={w.get('live_workers_idle')} queues_empty={w.get('queues_empty')}"))
         return v, None, obs
     if st in ("watchdog-inconclusive", "outer-timeout", "no-output", "harness-error", "started"):
-        return v, f"case-{st}: {json.dumps(res.get('watchdog') or res.get('error') or res.get('stderr') or '')[:400]}", obs
+        return v, f"case-{st}: {json.dumps(res.get('watchdog') or res.get('error') or res.get('stderr') or '')[:3000]}", obs
     got = [tuple(g) for g in res["got"]]
     kmap = {int(k): c for k, c in spec["kmap"].items()}
     expected = Counter()
